@@ -379,7 +379,8 @@ theorem inv_ack {s : Srv} (h : Inv s) (mac : Bytes) (ip : UInt32) (relayed : Boo
       cases hh : l0.cidBytes with
       | nil => exact absurd hh hne
       | cons a b => rfl
-    have c2 : (l0.cidBytes != (⟨mac, ip, p.id, s.now + p.leaseSecs.toNat, s.subMs, newCid (some l0) reqCid, 0, 0⟩ : Lease).cidBytes) = true := by
+    have c2 : (l0.cidBytes != (⟨mac, ip, p.id, s.now + p.leaseSecs.toNat + (s.subMs + p.leaseSubMs) / 1000, (s.subMs + p.leaseSubMs) % 1000,
+        newCid (some l0) reqCid, 0, 0⟩ : Lease).cidBytes) = true := by
       rw [hex] at hdiff
       simpa using hdiff
     have c3 : (AMap.lookup s.byCid l0.cidBytes == some l0) = true := by simp [hby]
